@@ -58,6 +58,11 @@ CLAIMED["C13"] = dict(
    text="Exploration: every adaptor chain of depth <= 2 over 31 adaptor instances (each, keep, skip/take/step/chunks/windows with parameters 0..3, take-while, chain, zip, enumerate, flatten, intersperse, cycle, reversed, iter) x 14 source kinds (list, tuple, three range forms, string, map, tracing generator, string chars/bytes/split/lines, @next object, @iterator object) of every length 0..5 x 21 consumers (quick: all consumers up to depth 1 and a rotated consumer at depth 2; thorough: all) plus 150k / 2.5M sampled pipelines of depth 3-4; printed results must equal the vector model (incl. errors for zero parameters and reversed on non-bidirectional chains, mixed next/next_back partitioning, copy independence, reuse after exhaustion) and generator pull traces must show no pull before consumption, pulls in order exactly once, and no more pulls than the model's demand plus declared look-ahead.",
    note="Trusts the vector model (Rust std iterator semantics + the core-library docs). Copies of iterators over user objects, sums/minima of single incomparable values and endless pipelines are not judged.",
    design="§4 C13")
+CLAIMED["C14"] = dict(
+   technique="model-based property-based testing: proptest-generated operation histories over aliased containers run against an abstract heap model (reference interpreter), plus exhaustive pair/triple enumeration of a 44-value boundary pool for the equality, ordering, map-key and sorting laws",
+   text="Exploration: 40k (quick) / 1M (thorough) generated histories of 4-24 container operations (list/map/tuple core functions, indexing, slicing, +, copy/deep_copy, aliasing through assignment, arguments and captures) printed after every step and compared with the abstract heap; every pair and triple of a 44-value boundary pool (ints, floats incl. -0.0 and 2^53 neighbours, strings, tuples, ranges, lists, maps, null, bools) for reflexivity, symmetry, != as negation, transitivity, totality of < on numbers and strings, key identity in maps of 1, 2, 9 and 40 entries (both index-table regimes), sort = ordered permutation; exhaustive map index assignment over sizes 1-4 x index x key.",
+   note="Trusts the abstract heap in model.rs. Ordering between an integer and a float beyond 2^53 is a recorded finding (C14-order-2p53) and excluded by construction from the key/transitivity clauses; NaN is excluded as the property states.",
+   design="§4 C14")
 NOT_YET = {}
 props=[json.loads(l) for l in open('/verif/properties.jsonl')]
 checks=[]; na=[]
